@@ -23,6 +23,9 @@ type wireCase struct {
 	Mand []hexBytes `json:"mand"`           // value parts of the mandatory elements, table order
 	Opts []wireIE   `json:"opts"`           // optional IEs present, table order
 	Perm []int      `json:"perm,omitempty"` // order in which Opts are sent in the permuted variant
+	// Prev: another message of the same type that the SAME nas.Message value received just before this one (a receiver
+	// object kept per UE); what is decoded into it afterwards must be this message and nothing of the earlier one
+	Prev *wireCase `json:"received_before,omitempty"`
 }
 
 func (c *wireCase) value() (*binding, *refnas.Value, error) {
@@ -268,7 +271,13 @@ func genWire(t *rapid.T) wireCase {
 	// rapid's integer generators favour small values; the message type is therefore taken from
 	// a mixed 64-bit draw so that all 45 types get the same share of the cases
 	b := bs[drawIndex(t, len(bs), "msg")]
-	return drawWire(t, b, nil)
+	c := drawWire(t, b, nil)
+	if len(b.def.Opts) > 0 && rapid.IntRange(0, 3).Draw(t, "reused_receiver") == 0 {
+		p := drawWire(t, b, nil)
+		p.Perm = nil
+		c.Prev = &p
+	}
+	return c
 }
 
 // usable lists the bindings whose Go type matches the table structurally (the others are
